@@ -88,11 +88,7 @@ impl Codec {
     ///
     /// If max size is set to `0`, size is unlimited.
     /// By default max size is set to `0`
-    pub fn set_max_outbound_size(&self, mut size: u32) {
-        if size > 5 {
-            // fixed header = 1, var_len(remaining.max_value()) = 4
-            size -= 5;
-        }
+    pub fn set_max_outbound_size(&self, size: u32) {
         self.max_out_size.set(size);
     }
 
@@ -325,10 +321,15 @@ impl Codec {
 
         let max_out_size = self.max_out_size.get();
         let max_size = if max_out_size != 0 {
-            max_out_size
+            // fixed header = 1, var_len(remaining.max_value()) = 4
+            max_out_size.saturating_sub(5)
         } else {
             MAX_PACKET_SIZE
         };
+        // packet without content takes two bytes
+        if max_out_size == 1 {
+            return Err(EncodeError::OverMaxPacketSize);
+        }
         match item {
             Encoded::Packet(pkt) => {
                 if self.encoding_payload.get().is_some() {
